@@ -8,15 +8,16 @@ from tools.manifest_table import CHECKS, NOT_BUILT, HOOK_COMMITS
 
 # additions of session 4 (DESIGN.md section 19), appended to the texts of tools/manifest_table.py
 EXTRA = {
- 'C01': ' Session 4: the canonical key covers every attribute of the model and its cells; partly loaded origins (inmem-part, xlsx-part), depth-4 write / read / write / read jobs, operations placed on two threads (+thr origins), neighbour doubles and the logical twins of stored values in the alphabets; 33 workbooks.',
- 'C03': ' Session 4: part C2 enumerates every save history of depth 4 (5 thorough) over {write, lazy compile, to_file x 5 file-type combinations} and all 375 three-save patterns, judged by from_file of the bare name and of each file written; text starting with \'=; iteration switched on without count / delta; a workbook with plugin functions in the lock-step BFS.',
+ 'C01': ' Session 4: the canonical key covers every attribute of the model and its cells; partly loaded origins (inmem-part, xlsx-part), depth-4 write / read / write / read jobs, recalculate on partly loaded xlsx models, operations placed on two threads (+thr origins), neighbour doubles and the logical twins of stored values in the alphabets; 33 workbooks.',
+ 'C03': ' Session 4: part C2 enumerates every save history of depth 4 (5 thorough) over {write, lazy compile, to_file x 5 file-type combinations} and all 375 three-save patterns, judged by from_file of the bare name and of each file written; text starting with \'=; iteration switched on without count / delta; a workbook with plugin functions and one with an OFFSET member of a saved range in the lock-step BFS.',
  'C06': ' Session 4: cycles closed only at run time (OFFSET / INDIRECT links) for every 2x2 system; the error bound is judged for every early stop; operations of the acyclic BFS placed on two threads.',
  'C07': ' Session 4: six function-library workloads (rounding x 2, dates x 2, text, lookups) on two threads with a scheduling point at EVERY source line of excellib.py and lib/*.py, one preemption, 11 pairs (all 36 in thorough).',
- 'C09': ' Session 4: fault kind RecursionError, validate_calcs(raise_exceptions=True) as an operation, patterns (read, failing validate, write, read) and (failing entry point, write, read), a workbook with two independent roots below one output (trim_graph failing half way).',
+ 'C09': ' Session 4: fault kind RecursionError, validate_calcs(raise_exceptions=True) as an operation, patterns (read, failing validate, write, read) and (failing entry point, write, read), a workbook with two independent roots below one output (trim_graph failing half way); a request holding an address that cannot be built as an operation; the same failing request 210 times over.',
  'C10': ' Session 4: doubles equal to 15 significant digits (order axioms only), cell x literal and literal x cell forms, numpy scalar operands.',
  'C11': ' Session 4: every sheet name over a small coordinate set in the quick tier, sheet names with blanks at the ends, enumeration through collected row / column generators, containment (other sheet, whole columns / rows).',
  'C12': ' Session 4: stored results far below 1e-8 (workbook tiny, perturbation at the value\'s own magnitude).',
- 'C13': ' Session 4: arrays of 9-16 elements holding every type twin, each twin first in turn.',
+ 'C13': ' Session 4: arrays of 9-16 elements holding every type twin, each twin first in turn; array formulas on 20 sheet names that need quoting inside a formula; one array formula text over targets of different shapes.',
+ 'C04': ' Session 4: whole column / row plus a written cell beyond the used area (a write to a read cell must reach the reader).',
  'C15': ' Session 4: tilde escapes judged, criteria ranges of equal cell count but different shape must give an error value, a criterion given twice (same range / a range with equal values) selects what it selects once.',
  'C16': ' Session 4: LOOKUP vector form with a column of keys and a row of results and the reverse.',
  'C17': ' Session 4: the years sharing 1900\'s place in the 400-year cycle together with 1900 in one brand-new process (both orders), month shifts to years <= 0 for every residue mod 12, infinite arguments.',
